@@ -31,6 +31,12 @@ Qed.
 Lemma skipn_nil_length {A} n (l : list A) : skipn n l = [] -> (length l <= n)%nat.
 Proof. intros H. pose proof (skipn_length n l) as E. rewrite H in E. cbn [length] in E. lia. Qed.
 
+Lemma ones_eq bs : ones bs = ones_from 0 bs.
+Proof. reflexivity. Qed.
+
+Lemma clear_below_eq q w : Z.land w (not64 (Mask q)) = clear_below q w.
+Proof. reflexivity. Qed.
+
 Lemma shiftl_6 x : Z.shiftl x 6 = 64 * x.
 Proof. rewrite Z.shiftl_mul_pow2 by lia. change (2 ^ 6) with 64. lia. Qed.
 
@@ -133,16 +139,17 @@ Lemma sel_in_word ws i k w f : sel_state ws i k w f -> Z.of_nat f < popcount w -
     nth_error (all_ones ws) i = Some (64 * Z.of_nat k + off).
 Proof.
   intros (Hk & Hw & Hst) Hf.
-  pose proof (ones_from_bits64_length 0 w Hw) as Hlen. fold (ones (bits 64 w)) in Hlen.
-  destruct (nth_error_exists (ones (bits 64 w)) f ltac:(lia)) as [off Hoff].
+  pose proof (ones_from_bits64_length 0 w Hw) as Hlen.
+  destruct (nth_error_exists (ones_from 0 (bits 64 w)) f ltac:(lia)) as [off Hoff].
+  assert (Hoff' : nth_error (ones (bits 64 w)) f = Some off) by (rewrite ones_eq; exact Hoff).
   exists off. repeat split.
-  - apply select_in_word_spec; [lia|exact Hoff].
+  - apply select_in_word_spec; [lia|exact Hoff'].
   - apply nth_error_In in Hoff. apply ones_from_lb in Hoff. lia.
   - apply nth_error_In in Hoff. apply ones_from_lb in Hoff. rewrite bits_length in Hoff. lia.
-  - exact Hoff.
+  - exact Hoff'.
   - specialize (Hst 0%nat). rewrite !Nat.add_0_r in Hst. rewrite Hst, rest_ones_split.
     apply nth_error_app_Some. rewrite ones_from_shift, nth_error_map.
-    fold (ones (bits 64 w)). rewrite Hoff. reflexivity.
+    rewrite Hoff. reflexivity.
 Qed.
 
 (** * the next-1 scan over the following words *)
@@ -209,7 +216,7 @@ Lemma sel_next ws i k w f off : words_ok ws -> sel_state ws i k w f ->
   if w2 =? 0 then next_one_scan (length ws) ws (Z.of_nat k + 1) (zlen ws) = Some (next_spec ws i)
   else 64 * Z.of_nat k + tz64 w2 = next_spec ws i.
 Proof.
-  intros Hok (Hk & Hw & Hst) Hoff w2.
+  intros Hok (Hk & Hw & Hst) Hoff w2. rewrite ones_eq in Hoff.
   destruct (ones_from_nth_rank _ _ _ _ Hoff) as (Hoff0 & Hcnt & Hbit).
   rewrite Z.sub_0_r in Hcnt, Hbit.
   set (q := Z.to_nat off) in *.
@@ -224,7 +231,7 @@ Proof.
     rewrite (ones_from_firstn_succ b _ q Hbit). f_equal.
     rewrite (ones_from_length_indep b 0). exact Hcnt. }
   assert (Hlenf : (f < length (ones_from b (bits 64 w)))%nat).
-  { rewrite (ones_from_length_indep b 0). apply nth_error_Some. unfold ones in Hoff. congruence. }
+  { rewrite (ones_from_length_indep b 0). apply nth_error_Some. congruence. }
   specialize (Hst 1%nat). replace (i + 1)%nat with (S i) in Hst by lia.
   replace (f + 1)%nat with (S f) in Hst by lia. rewrite rest_ones_split in Hst. fold b in Hst.
   pose proof (clear_below_word (off + 1) w Hw) as Hw2r. fold w2 in Hw2r.
@@ -316,7 +323,7 @@ Proof.
   set (k := Z.to_nat (p / 64)).
   destruct (nth_error_exists ws k ltac:(subst k; lia)) as [w Hw].
   replace (p / 64) with (Z.of_nat k) by (subst k; lia). rewrite nthZ_of_nat, Hw.
-  fold (clear_below (p mod 64) w).
+  rewrite clear_below_eq.
   pose proof (checkpoint_state ws (32 * c) f p w Hok Hp Hw) as Hst. fold k in Hst.
   assert (Ei : Z.to_nat i = (32 * c + f)%nat) by (subst c f; lia).
   rewrite <- Ei in Hst.
@@ -330,7 +337,8 @@ Proof.
   { change 63 with (Z.ones 6). rewrite Z.land_ones by lia. change (2 ^ 6) with 64. lia. }
   assert (Ea6 : Z.shiftr (off + 64 * Z.of_nat k') 6 = Z.of_nat k').
   { rewrite Z.shiftr_div_pow2 by lia. change (2 ^ 6) with 64. lia. }
-  rewrite Ea63, Ea6, not64_MaskUpto. fold (clear_below (off + 1) w').
+  rewrite Ea63, Ea6, not64_MaskUpto.
+  rewrite clear_below_eq.
   pose proof (sel_next ws _ k' w' f' off Hok Hst' Hnth) as Hnext. cbv zeta in Hnext.
   assert (Espec : spec_Select ws i = (64 * Z.of_nat k' + off, next_spec ws (Z.to_nat i))).
   { unfold spec_Select, next_spec. cbv zeta. f_equal.
@@ -340,4 +348,260 @@ Proof.
   destruct (clear_below (off + 1) w' =? 0); cbn [negb].
   - rewrite Hnext. do 2 f_equal. lia.
   - do 2 f_equal; lia.
+Qed.
+
+(** * Select32R64: the rank-index advance *)
+Lemma Select32R64_advance_eq fuel ridx wordI i :
+  Select32R64_advance fuel ridx wordI i =
+  match nthZ ridx (wordI + 1) with
+  | None => None
+  | Some r => if r <=? i then
+                match fuel with
+                | O => None
+                | S f => Select32R64_advance f ridx (wordI + 1) i
+                end
+              else Some wordI
+  end.
+Proof. destruct fuel; reflexivity. Qed.
+
+Lemma spec_index64_nth_tr ws k : (k <= length ws)%nat ->
+  nth_error (spec_IndexRank64 ws true) k = Some (rank1 (flat ws) (64 * k)).
+Proof.
+  intros Hk. destruct (Nat.eq_dec k (length ws)) as [->|Hne].
+  - unfold spec_IndexRank64. rewrite nth_error_app2 by (rewrite map_length, seq_length; lia).
+    rewrite map_length, seq_length, Nat.sub_diag. reflexivity.
+  - apply spec_index64_nth. lia.
+Qed.
+
+Lemma rank1_mono l a b : (a <= b)%nat -> rank1 l a <= rank1 l b.
+Proof.
+  intros H. unfold rank1. replace (firstn a l) with (firstn a (firstn b l)).
+  - apply count_true_firstn_le.
+  - rewrite firstn_firstn. f_equal. lia.
+Qed.
+
+Lemma rank1_words_succ ws k w : words_ok ws -> nth_error ws k = Some w ->
+  rank1 (flat ws) (64 * S k) = rank1 (flat ws) (64 * k) + popcount w.
+Proof.
+  intros Hok Hw. replace (64 * S k)%nat with (64 * k + 64)%nat by lia.
+  rewrite (rank1_flat ws k w 64 Hw) by lia.
+  rewrite (firstn_all2 (n:=64)) by (rewrite bits_length; lia).
+  rewrite <- popcount_bits64 by (eapply words_ok_nth; eauto). reflexivity.
+Qed.
+
+Lemma rank1_words_all ws : rank1 (flat ws) (64 * length ws) = zlen (all_ones ws).
+Proof. rewrite zlen_all_ones, rank1_flat_words, firstn_all. reflexivity. Qed.
+
+Lemma advance_spec ws (i : Z) : words_ok ws -> i < zlen (all_ones ws) ->
+  forall fuel k, (k < length ws)%nat -> (length ws <= k + 1 + fuel)%nat ->
+  rank1 (flat ws) (64 * k) <= i ->
+  exists k', Select32R64_advance fuel (spec_IndexRank64 ws true) (Z.of_nat k) i = Some (Z.of_nat k') /\
+    (k' < length ws)%nat /\ rank1 (flat ws) (64 * k') <= i < rank1 (flat ws) (64 * S k').
+Proof.
+  intros Hok Hi. induction fuel as [|fuel IH]; intros k Hk Hfuel Hr.
+  all: rewrite Select32R64_advance_eq.
+  all: replace (Z.of_nat k + 1) with (Z.of_nat (S k)) by lia.
+  all: rewrite nthZ_of_nat, spec_index64_nth_tr by lia.
+  all: destruct (Z.leb_spec (rank1 (flat ws) (64 * S k)) i) as [Hle|Hgt];
+    [|exists k; repeat split; (assumption || lia)].
+  all: assert (HSk : (S k < length ws)%nat)
+    by (destruct (Nat.eq_dec (S k) (length ws)) as [E|]; [rewrite E, rank1_words_all in Hle; lia|lia]).
+  - lia.
+  - apply IH; (lia || assumption).
+Qed.
+
+(** the state at the start of word [k] when the [i]-th 1 is not before it *)
+Lemma rank_state ws (i : Z) k w : words_ok ws -> nth_error ws k = Some w ->
+  rank1 (flat ws) (64 * k) <= i ->
+  sel_state ws (Z.to_nat i) k w (Z.to_nat (i - rank1 (flat ws) (64 * k))).
+Proof.
+  intros Hok Hw Hr. pose proof (words_ok_nth _ _ _ Hok Hw) as Hwr.
+  assert (Hlen : Z.of_nat (length (ones_from 0 (flat (firstn k ws)))) = rank1 (flat ws) (64 * k)).
+  { rewrite ones_from_length, rank1_flat_words. reflexivity. }
+  set (r := rank1 (flat ws) (64 * k)) in *.
+  repeat split; try lia.
+  - apply nth_error_Some. congruence.
+  - intros j. unfold all_ones, ones. rewrite (flat_split k ws w Hw), ones_from_app.
+    assert (Hk : length (flat (firstn k ws)) = (64 * k)%nat).
+    { rewrite flat_length, firstn_length_le; [reflexivity|].
+      apply Nat.lt_le_incl. apply nth_error_Some. congruence. }
+    rewrite Hk.
+    rewrite nth_error_app2 by lia. unfold rest_ones.
+    replace (0 + Z.of_nat (64 * k)) with (64 * Z.of_nat k) by lia.
+    f_equal. lia.
+Qed.
+
+Theorem Select32R64_exact ws i : words_ok ws -> 0 <= i < zlen (all_ones ws) ->
+  Select32R64 ws (spec_IndexSelect32 ws) (spec_IndexRank64 ws true) i = Some (spec_Select ws i).
+Proof.
+  intros Hok Hi. pose proof Hi as Hi'. unfold zlen in Hi.
+  set (n := length (all_ones ws)) in *.
+  unfold Select32R64.
+  rewrite Z.shiftr_div_pow2 by lia. change (2 ^ 5) with 32.
+  set (c := Z.to_nat (i / 32)).
+  replace (i / 32) with (Z.of_nat c) by (subst c; lia).
+  rewrite nthZ_of_nat, spec_IndexSelect32_nth by (fold n; subst c; lia).
+  set (p := nth (32 * c) (all_ones ws) 0).
+  assert (Hp : nth_error (all_ones ws) (32 * c) = Some p)
+    by (apply nth_error_nth_Some; fold n; subst c; lia).
+  destruct (all_ones_nth ws _ p Hp) as (Hp0 & Hplt & Hrank & _ & _).
+  destruct (pos_split p Hp0) as (E1 & _ & E3 & Hq & Hk0). rewrite E1.
+  set (k := Z.to_nat (p / 64)).
+  assert (Hk : (k < length ws)%nat) by (subst k; lia).
+  assert (Hr0 : rank1 (flat ws) (64 * k) <= i).
+  { transitivity (rank1 (flat ws) (Z.to_nat p)); [|rewrite Hrank; subst c; lia].
+    apply rank1_mono. subst k; lia. }
+  replace (p / 64) with (Z.of_nat k) by (subst k; lia).
+  destruct (advance_spec ws i Hok ltac:(lia) (length ws) k Hk ltac:(lia) Hr0) as (k' & Hadv & Hk' & Hr').
+  rewrite Hadv.
+  destruct (nth_error_exists ws k' Hk') as [w Hw].
+  rewrite !nthZ_of_nat, Hw, spec_index64_nth_tr by lia.
+  cbv beta iota zeta.
+  pose proof (rank_state ws i k' w Hok Hw ltac:(lia)) as Hst.
+  assert (Hf : Z.of_nat (Z.to_nat (i - rank1 (flat ws) (64 * k'))) < popcount w).
+  { rewrite (rank1_words_succ ws k' w Hok Hw) in Hr'. lia. }
+  set (f := Z.to_nat (i - rank1 (flat ws) (64 * k'))) in *.
+  replace (i - rank1 (flat ws) (64 * k')) with (Z.of_nat f) by (subst f; lia).
+  destruct (sel_in_word ws _ k' w f Hst Hf) as (off & Hsiw & Hoff & Hnth & Ha).
+  rewrite Hsiw, shiftl_6.
+  assert (Ea63 : Z.land (off + 64 * Z.of_nat k') 63 = off).
+  { change 63 with (Z.ones 6). rewrite Z.land_ones by lia. change (2 ^ 6) with 64. lia. }
+  rewrite Ea63, RMaskUpto_not64, clear_below_eq.
+  pose proof (sel_next ws _ k' w f off Hok Hst Hnth) as Hnext. cbv zeta in Hnext.
+  assert (Espec : spec_Select ws i = (64 * Z.of_nat k' + off, next_spec ws (Z.to_nat i))).
+  { unfold spec_Select, next_spec. cbv zeta. f_equal.
+    - now apply nth_error_nth.
+    - rewrite Z2Nat.id by lia. replace (Z.to_nat (i + 1)) with (S (Z.to_nat i)) by lia. reflexivity. }
+  rewrite Espec.
+  destruct (clear_below (off + 1) w =? 0); cbn [negb].
+  - rewrite Hnext. do 2 f_equal. lia.
+  - do 2 f_equal; lia.
+Qed.
+
+Theorem IndexSelect32R64_exact ws : words_ok ws ->
+  IndexSelect32R64 ws = Some (spec_IndexSelect32R64 ws).
+Proof.
+  intros Hok. unfold IndexSelect32R64, spec_IndexSelect32R64.
+  pose proof (IndexSelect32_exact ws) as H. unfold IndexSelect32 in H. rewrite H.
+  now rewrite IndexRank64_exact.
+Qed.
+
+(** * with the indexes as the index builders return them *)
+Theorem Select32_indexed ws sidx i : words_ok ws -> IndexSelect32 ws = Some sidx ->
+  0 <= i < zlen (all_ones ws) ->
+  Select32 ws sidx i = Some (spec_Select ws i).
+Proof.
+  intros Hok Hs Hi. rewrite IndexSelect32_exact in Hs. injection Hs as <-.
+  now apply Select32_exact.
+Qed.
+
+Theorem Select32R64_indexed ws sidx ridx i : words_ok ws -> IndexSelect32R64 ws = Some (sidx, ridx) ->
+  0 <= i < zlen (all_ones ws) ->
+  Select32R64 ws sidx ridx i = Some (spec_Select ws i).
+Proof.
+  intros Hok Hs Hi. rewrite IndexSelect32R64_exact in Hs by exact Hok.
+  unfold spec_IndexSelect32R64 in Hs. injection Hs as <- <-.
+  now apply Select32R64_exact.
+Qed.
+
+(** * corollaries: select is inverse to rank, the selected bit is 1, and the second
+      component is the position where the rank becomes [i + 1] *)
+Lemma spec_Select_fst ws i : 0 <= i < zlen (all_ones ws) ->
+  let a := fst (spec_Select ws i) in
+  0 <= a < 64 * zlen ws /\ rank1z (flat ws) a = i /\ bitz (flat ws) a = true.
+Proof.
+  intros Hi a. unfold zlen in Hi.
+  assert (Ha : nth_error (all_ones ws) (Z.to_nat i) = Some a)
+    by (apply nth_error_nth_Some; lia).
+  destruct (all_ones_nth ws _ a Ha) as (H0 & Hlt & Hr & Hb & _).
+  unfold zlen, rank1z, bitz. repeat split; try lia.
+  now apply nth_error_nth.
+Qed.
+
+Lemma spec_Select_snd ws i : 0 <= i < zlen (all_ones ws) ->
+  let a := fst (spec_Select ws i) in
+  let b := snd (spec_Select ws i) in
+  a < b <= 64 * zlen ws /\ rank1z (flat ws) b = i + 1 /\
+  (b < 64 * zlen ws -> bitz (flat ws) b = true).
+Proof.
+  intros Hi a b. destruct (spec_Select_fst ws i Hi) as (Ha & Hra & _). fold a in Ha, Hra.
+  assert (Hb : 0 <= b <= 64 * zlen ws /\ rank1z (flat ws) b = i + 1 /\
+               (b < 64 * zlen ws -> bitz (flat ws) b = true)).
+  { unfold b, spec_Select. cbv zeta. cbn [snd]. unfold zlen in *.
+    destruct (Z.ltb_spec (i + 1) (Z.of_nat (length (all_ones ws)))) as [Hlt|Hge].
+    - assert (Hn : nth_error (all_ones ws) (Z.to_nat (i + 1)) = Some (nth (Z.to_nat (i + 1)) (all_ones ws) 0))
+        by (apply nth_error_nth_Some; lia).
+      destruct (all_ones_nth ws _ _ Hn) as (H0 & Hl & Hr & Hbit & _).
+      unfold rank1z, bitz. repeat split; try lia. intros _. now apply nth_error_nth.
+    - unfold rank1z. replace (Z.to_nat (64 * Z.of_nat (length ws))) with (64 * length ws)%nat by lia.
+      rewrite rank1_words_all. unfold zlen. repeat split; lia. }
+  destruct Hb as (Hb0 & Hrb & Hbb). repeat split; try assumption; try lia.
+  destruct (Z.lt_ge_cases a b) as [|Hge]; [assumption|exfalso].
+  unfold rank1z in *. pose proof (rank1_mono (flat ws) (Z.to_nat b) (Z.to_nat a) ltac:(lia)). lia.
+Qed.
+
+(** [Rank64] (the model of the library's own rank) applied to the result of [Select32] *)
+Theorem Rank64_Select32 ws tr sidx i a b : words_ok ws -> IndexSelect32 ws = Some sidx ->
+  0 <= i < zlen (all_ones ws) -> Select32 ws sidx i = Some (a, b) ->
+  Rank64 ws (IndexRank64 ws tr) a = Some (i, 1).
+Proof.
+  intros Hok Hs Hi Hsel. rewrite (Select32_indexed ws sidx i Hok Hs Hi) in Hsel.
+  injection Hsel as Ea Eb.
+  pose proof (spec_Select_fst ws i Hi) as HF. unfold spec_Select in HF. cbv zeta in HF.
+  cbn [fst] in HF. rewrite Ea in HF.
+  destruct HF as (Ha & Hr & Hb).
+  rewrite Rank64_exact by assumption. unfold spec_Rank. rewrite Hr, Hb. reflexivity.
+Qed.
+
+Theorem Rank64_Select32R64 ws tr sidx ridx i a b : words_ok ws ->
+  IndexSelect32R64 ws = Some (sidx, ridx) ->
+  0 <= i < zlen (all_ones ws) -> Select32R64 ws sidx ridx i = Some (a, b) ->
+  Rank64 ws (IndexRank64 ws tr) a = Some (i, 1).
+Proof.
+  intros Hok Hs Hi Hsel. rewrite (Select32R64_indexed ws sidx ridx i Hok Hs Hi) in Hsel.
+  injection Hsel as Ea Eb.
+  pose proof (spec_Select_fst ws i Hi) as HF. unfold spec_Select in HF. cbv zeta in HF.
+  cbn [fst] in HF. rewrite Ea in HF.
+  destruct HF as (Ha & Hr & Hb).
+  rewrite Rank64_exact by assumption. unfold spec_Rank. rewrite Hr, Hb. reflexivity.
+Qed.
+
+(** * the specification value is THE position with bit 1 and rank [i] (uniqueness), so the
+      theorems above say what the property says, not merely "equal to some list function" *)
+Lemma rank1_succ_set bs p : nth_error bs p = Some true -> rank1 bs (S p) = rank1 bs p + 1.
+Proof.
+  intros H. unfold rank1. rewrite (firstn_succ_nth p bs true H), count_true_app.
+  cbn [count_true Z.b2z]. lia.
+Qed.
+
+Lemma rank1_set_unique bs p p' :
+  nth_error bs p = Some true -> nth_error bs p' = Some true -> rank1 bs p = rank1 bs p' -> p = p'.
+Proof.
+  intros Hp Hp' E.
+  destruct (Nat.lt_trichotomy p p') as [Hlt|[Heq|Hgt]]; [exfalso|exact Heq|exfalso].
+  - pose proof (rank1_mono bs (S p) p' ltac:(lia)). rewrite rank1_succ_set in * by exact Hp. lia.
+  - pose proof (rank1_mono bs (S p') p ltac:(lia)). rewrite rank1_succ_set in * by exact Hp'. lia.
+Qed.
+
+Lemma bitz_nth_error bs a : 0 <= a -> bitz bs a = true -> nth_error bs (Z.to_nat a) = Some true.
+Proof.
+  intros Ha Hb. unfold bitz in Hb.
+  destruct (Nat.lt_ge_cases (Z.to_nat a) (length bs)) as [Hlt|Hge].
+  - rewrite (nth_error_nth_Some bs _ false Hlt). now rewrite Hb.
+  - rewrite nth_overflow in Hb by exact Hge. discriminate.
+Qed.
+
+Theorem spec_Select_unique ws i a : 0 <= a -> bitz (flat ws) a = true -> rank1z (flat ws) a = i ->
+  0 <= i < zlen (all_ones ws) /\ fst (spec_Select ws i) = a.
+Proof.
+  intros Ha Hb Hr. pose proof (bitz_nth_error _ _ Ha Hb) as Hn. unfold rank1z in Hr.
+  assert (Hi : 0 <= i < zlen (all_ones ws)).
+  { pose proof (rank1_succ_set _ _ Hn) as Hs. rewrite Hr in Hs.
+    rewrite zlen_all_ones. unfold rank1 in *.
+    pose proof (count_true_firstn_le (flat ws) (S (Z.to_nat a))).
+    pose proof (count_true_nonneg (firstn (Z.to_nat a) (flat ws))). lia. }
+  split; [exact Hi|].
+  destruct (spec_Select_fst ws i Hi) as (Ha0 & Hr0 & Hb0).
+  pose proof (bitz_nth_error _ _ (proj1 Ha0) Hb0) as Hn0. unfold rank1z in Hr0.
+  pose proof (rank1_set_unique _ _ _ Hn0 Hn ltac:(lia)). lia.
 Qed.
